@@ -76,7 +76,23 @@ func SortedKeys[M ~map[K]V, K cmp.Ordered, V any](m M) []K {
 		ks = append(ks, k)
 	}
 	sort.Slice(ks, func(i, j int) bool { return ks[i] < ks[j] })
+	shuffleKeys(len(ks), func(i, j int) { ks[i], ks[j] = ks[j], ks[i] })
 	return ks
+}
+
+// shuffleKeys permutes n sorted keys with the run's map-order generator when the plan asks
+// for it (Config.ShuffleMaps). The permutation is a function of the seed and of the order
+// of calls, which the single-runner scheduler fixes, so runs stay replayable.
+func shuffleKeys(n int, swap func(i, j int)) {
+	s := cur.Load()
+	if s == nil || !s.cfg.ShuffleMaps || n < 2 {
+		return
+	}
+	s.mu.Lock()
+	for i := n - 1; i > 0; i-- {
+		swap(i, s.mapRng.Intn(i+1))
+	}
+	s.mu.Unlock()
 }
 
 // Entry is a key/value pair of a map.
@@ -106,6 +122,7 @@ func SortedKeysFunc[M ~map[K]V, K comparable, V any](m M, less func(a, b K) bool
 		ks = append(ks, k)
 	}
 	sort.Slice(ks, func(i, j int) bool { return less(ks[i], ks[j]) })
+	shuffleKeys(len(ks), func(i, j int) { ks[i], ks[j] = ks[j], ks[i] })
 	return ks
 }
 
